@@ -38,6 +38,10 @@ func libFiles() []*File {
 				{K: "call", Call: &CallSpec{Name: ".rec", Target: "lib.deep.rec", Params: []CallParam{{Key: "n", Value: bin("-", vr("n"), I(1))}}}},
 			}}}, Else: []*Cmd{txt(".")}},
 		}},
+		// an optional param declared BEFORE a required one (declaration order must not matter).
+		{NS: "lib.deep", Name: "mixed", Params: []Param{{"o", true}, {"r", false}, {"o2", true}, {"r2", false}}, Body: []*Cmd{
+			txt("m("), pr(bin("?:", vr("o"), S("-"))), pr(vr("r")), pr(bin("?:", vr("o2"), S("-"))), pr(vr("r2")), txt(")"),
+		}},
 		// passes everything on.
 		{NS: "lib.deep", Name: "relay", Params: []Param{{"x", true}, {"y", true}}, Body: []*Cmd{
 			txt("r("), {K: "call", Call: &CallSpec{Name: ".show", Target: "lib.deep.show", AllData: true}}, txt(")"),
@@ -68,6 +72,7 @@ func c02Leaves() []*Cmd {
 		{K: "letc", Var: "y", Body: []*Cmd{txt("c"), pr(vr("x"))}},
 		{K: "call", Call: &CallSpec{Name: "lib.deep.show", Target: "lib.deep.show", AllData: true}},
 		{K: "call", Call: &CallSpec{Name: "deep.show", Target: "lib.deep.show"}},
+		{K: "call", Call: &CallSpec{Name: "deep.mixed", Target: "lib.deep.mixed", Params: []CallParam{{Key: "r", Value: vr("x")}, {Key: "r2", Value: I(2)}}}},
 		{K: "call", Call: &CallSpec{Name: "deep.show", Target: "lib.deep.show", Params: []CallParam{{Key: "x", Value: vr("y")}}}},
 		{K: "call", Call: &CallSpec{Name: "deep.binder", Target: "lib.deep.binder", Params: []CallParam{{Key: "x", Value: vr("x")}}}},
 		{K: "call", Call: &CallSpec{Name: "deep.show", Target: "lib.deep.show", Data: vr("m"), Params: []CallParam{{Key: "y", Content: []*Cmd{txt("p"), pr(vr("x"))}}}}},
